@@ -314,6 +314,7 @@ def _coerce(a, b):
 # ---- "algebra-free" mode for data-flow obligations: products and quotients of two non-constant reals become
 # uninterpreted functions, so queries stay in QF_UFLRA (z3's nonlinear+UF combination returns unknown on them)
 NL_UF = [False]
+NL_SIGN = [False]       # with NL_UF: every uninterpreted product comes with the sign rule
 NL_LOG = []
 _MUL = z3.Function("mul", z3.RealSort(), z3.RealSort(), z3.RealSort())
 _DIV = z3.Function("div", z3.RealSort(), z3.RealSort(), z3.RealSort())
@@ -332,6 +333,11 @@ def zmul(a, b):
         a, b = b, a
     t = _MUL(a, b)
     NL_LOG.append(("mul", a, b, t))
+    if NL_SIGN[0] and _ENG[0] is not None:
+        # the sign rule of real multiplication, asserted when the term is created (so that branches on it are decided)
+        _ENG[0].solver.add(z3.Implies(z3.Or(z3.And(a > 0, b > 0), z3.And(a < 0, b < 0)), t > 0),
+                           z3.Implies(z3.Or(z3.And(a > 0, b < 0), z3.And(a < 0, b > 0)), t < 0),
+                           z3.Implies(z3.Or(a == 0, b == 0), t == 0))
     return t
 
 
